@@ -393,6 +393,11 @@ var ops = []string{"Connect", "Connect", "Have", "Have", "Have", "Have", "Have",
 	"Snub", "Pick", "Pick", "Pick", "Pick", "Pick", "CancelDownload", "Disconnect", "PieceComplete", "PieceComplete", "PieceComplete",
 	"WriteOK", "WriteOK", "WriteOK", "WriteBad", "StartWebseed", "StartWebseed", "WebseedPiece", "WebseedPiece", "CloseWebseed"}
 
+// op mix for long web-seed episodes on torrents with >= 40 pieces (ranges of several pieces: stealing, stalled downloads)
+var opsWs = []string{"Connect", "Connect", "Have", "Have", "AllowedFast", "Choke", "Choke", "Unchoke", "Unchoke", "Unchoke",
+	"Snub", "Snub", "Pick", "Pick", "Pick", "Pick", "Pick", "Pick", "Pick", "Pick", "CancelDownload", "Disconnect", "PieceComplete", "PieceComplete",
+	"WriteOK", "WriteOK", "WriteBad", "StartWebseed", "StartWebseed", "StartWebseed", "WebseedPiece", "CloseWebseed"}
+
 func (s *sim) runRandom(nops int) {
 	defer func() {
 		if r := recover(); r != nil {
@@ -404,6 +409,9 @@ func (s *sim) runRandom(nops int) {
 	s.start()
 	for n, tries := 0, 0; n < nops && tries < nops*20; tries++ {
 		op := ops[s.rng.Intn(len(ops))]
+		if s.np >= 40 {
+			op = opsWs[s.rng.Intn(len(opsWs))]
+		}
 		pe := 1 + s.rng.Intn(s.npeers)
 		p := s.rng.Intn(s.np)
 		si := 0
@@ -411,7 +419,7 @@ func (s *sim) runRandom(nops int) {
 			si = 1 + s.rng.Intn(s.nsrc)
 		}
 		// "have all" bursts make end-game and sequential situations frequent
-		if op == "Have" && s.rng.Intn(4) == 0 && s.peers[pe] != nil {
+		if op == "Have" && s.rng.Intn(4) == 0 && s.peers[pe] != nil && (s.np < 40 || s.rng.Intn(3) == 0) {
 			for q := 0; q < s.np; q++ {
 				s.step("Have", pe, q, 0, true)
 				n++
@@ -465,6 +473,7 @@ func main() {
 	maxPieces := flag.Int("maxpieces", 10, "")
 	scripts := flag.String("scripts", "", "ndjson file with TLC-generated scripts")
 	outp := flag.String("out", "trace.ndjson", "")
+	nbig := flag.Int("nbig", 0, "number of random traces on torrents with 40..100 pieces and web seeds")
 	flag.Parse()
 	f, err := os.Create(*outp)
 	if err != nil {
@@ -498,6 +507,16 @@ func main() {
 		s.limit = []int{0, 1, 1, 2, 2, 3, 20}[rng.Intn(7)]
 		s.seq = rng.Intn(2) == 0
 		s.runRandom(*nops)
+		total += s.nevents
+	}
+	for i := 0; i < *nbig; i++ {
+		s := &sim{rng: rng, out: w}
+		s.np = 40 + rng.Intn(61)
+		s.npeers = 2 + rng.Intn(*maxPeers)
+		s.nsrc = 1 + rng.Intn(2)
+		s.limit = []int{1, 1, 2, 2, 3}[rng.Intn(5)]
+		s.seq = rng.Intn(3) == 0
+		s.runRandom(*nops * 3)
 		total += s.nevents
 	}
 	w.Flush()
